@@ -280,13 +280,6 @@ func FromReflect(rv reflect.Value, t *TyDef) *Val {
 		if t.Elem.K == "time" {
 			return &Val{K: "r"}
 		}
-		if t.Elem.isBytes() {
-			out := &Val{K: "l"}
-			for i := 0; i < rv.Len(); i++ {
-				out.L = append(out.L, &Val{K: "u", U: rv.Index(i).Uint()})
-			}
-			return out
-		}
 		return FromReflect(rv, t.Elem)
 	case "time":
 		tm := rv.Interface().(time.Time)
